@@ -78,8 +78,8 @@ pub fn c13(t: &Trace, r: &mut Report) {
                 if let Some(g) = parse(&t.obs[i]) {
                     alpha_min = alpha_min.min(g.b0 as f64);
                 }
-                run_x = None; // coefficients may have changed: a new monotone run starts
-                dir = 0;
+                // no reset here: with the input held, the output must keep moving toward it (never away, never
+                // back and forth) whatever the coefficient schedule is
             }
             "proc" => {
                 let x = fbits(op[1]);
@@ -109,7 +109,9 @@ pub fn c13(t: &Trace, r: &mut Report) {
                         let d = y - py;
                         let s = if d > 0.0 { 1 } else if d < 0.0 { -1 } else { 0 };
                         r.nt(h2((sr as u64) / 100, h2(run_len.min(40), (s + 1) as u64)));
-                        if s != 0 {
+                        // a reversal counts only beyond the f32 resolution of the filter (a coefficient change may move
+                        // the fixed point of the rounded recurrence by an ulp)
+                        if s != 0 && d.abs() > rh {
                             if dir != 0 && s != dir {
                                 r.fail_d(
                                     i,
